@@ -29,11 +29,16 @@ theorem C11_realloc_iff (origLen nNew lenTot : Nat) : Gen.needsRealloc origLen n
 theorem C11_nan_tail_iff (nGrow nNew : Nat) : Gen.nanFillTail nGrow nNew = true ↔ nNew < nGrow := by
   simp [Gen.nanFillTail]
 
-/-- The dispatch order of `_convert_key` the model's `convertKey` follows. -/
-theorem C11_convert_key_chain : Gen.convertKeyChain.map Prod.fst =
-    ["isinstance(key, (uids, int, ss_int))", "isinstance(key, (BoolArr, IndexArr))", "isinstance(key, slice)",
-     "not np.isscalar(key) and len(key) == 0", "isinstance(key, np.ndarray) and ss.options.reticulate", "else"] ∧
-    (Gen.convertKeyChain.map Prod.snd).getLast? = some "raise Exception(errormsg)" := by decide
+/-- The dispatch of `_convert_key` is the one `convertKey` models: identifiers pass through, Boolean/index arrays give
+    their uids, slices go through the active index, empty keys select nobody, everything else raises; an `int` is either
+    passed through unchanged (today, variant `asis`) or mapped through the active index (a repaired tree, variant `spec`). -/
+theorem C11_convert_key_chain :
+    (Gen.convertKeyChain = [("int+uids", "identity"), ("boolarr+indexarr", "key.uids"), ("slice", "auids[key]"),
+        ("empty", "empty"), ("ndarray-reticulate", "astype"), ("else", "raise")] ∧ Gen.intKeyViaActive = false) ∨
+    (Gen.convertKeyChain = [("uids", "identity"), ("int", "auids[key]"), ("boolarr+indexarr", "key.uids"), ("slice", "auids[key]"),
+        ("empty", "empty"), ("ndarray-reticulate", "astype"), ("else", "raise")] ∧ Gen.intKeyViaActive = true) ∨
+    (Gen.convertKeyChain = [("uids", "identity"), ("boolarr+indexarr", "key.uids"), ("int+slice", "auids[key]"),
+        ("empty", "empty"), ("ndarray-reticulate", "astype"), ("else", "raise")] ∧ Gen.intKeyViaActive = true) := by decide
 
 /-! ### Reading and writing by identifier -/
 
